@@ -184,6 +184,7 @@ func oneRun(c *driver.Ctx, env *kit.Env, cs *caseSpec, during func(run *kit.Runn
 		c.Note("stuck: class=%s frames=%v", cs.Class, stuck.RepoFrames)
 		return res, false
 	case pv != nil:
+		pv, pstack = kit.UnwrapPanic(pv, pstack)
 		w.Detail = fmt.Sprintf("panic: %v\n%s", pv, pstack)
 		c.Violation("panic", fmt.Sprintf("panic during a collector lifetime (%s): %v", cs.Class, pv), w, "site", driver.PanicSite(pstack))
 		return res, false
